@@ -4,12 +4,16 @@ package manager
 // tier for repaired ones, KNOWN-FINDING probes for open ones).
 
 import (
+	"bytes"
 	"context"
 	"fmt"
 	"github.com/spq/pkappa2/internal/query"
+	"net"
 	"os"
 	"path/filepath"
+	"runtime"
 	"strings"
+	"sync"
 	"testing"
 	"time"
 
@@ -455,8 +459,110 @@ func TestVerifC09Fixed(t *testing.T) {
 	vlib.Fixed(t, "C09", []string{"F-C09-streamids-off-by-one", "F-C09-convert-missing-stream-hang"}, c09FixedCase)
 }
 
+// c10DescriptorProbe: PCAP-over-IP connections come and go while other goroutines open a file, hold it for a
+// moment and read it. Nobody but the goroutine that opened a file closes it: a read that fails with "bad file
+// descriptor" means somebody closed a descriptor number that was not theirs any more.
+func c10DescriptorProbe() (string, any) {
+	s, err := vfStart([][2]string{{"aa", ""}}, nil, nil, true)
+	if err != nil {
+		return "setup: " + err.Error(), nil
+	}
+	defer s.close()
+	ln, err := net.Listen("tcp", "127.0.0.1:0")
+	if err != nil {
+		return "setup: " + err.Error(), nil
+	}
+	defer ln.Close()
+	conns := 0
+	var cmu sync.Mutex
+	go func() {
+		for {
+			conn, err := ln.Accept()
+			if err != nil {
+				return
+			}
+			cmu.Lock()
+			conns++
+			cmu.Unlock()
+			// a capture header and nothing else, then the peer hangs up
+			_, _ = conn.Write([]byte{0xd4, 0xc3, 0xb2, 0xa1, 2, 0, 4, 0, 0, 0, 0, 0, 0, 0, 0, 0, 0, 0, 1, 0, 228, 0, 0, 0})
+			conn.Close()
+		}
+	}()
+	probe := filepath.Join(s.base, "probe.bin")
+	if err := os.WriteFile(probe, bytes.Repeat([]byte{7}, 4096), 0o644); err != nil {
+		return "setup: " + err.Error(), nil
+	}
+	stop := make(chan struct{})
+	var wg sync.WaitGroup
+	var fmu sync.Mutex
+	failure := ""
+	for g := 0; g < 12; g++ {
+		wg.Add(1)
+		go func() {
+			defer wg.Done()
+			buf := make([]byte, 64)
+			for {
+				select {
+				case <-stop:
+					return
+				default:
+				}
+				f, err := os.Open(probe)
+				if err != nil {
+					continue
+				}
+				for i := 0; i < 6; i++ {
+					if _, err := f.ReadAt(buf, int64(i)*64); err != nil {
+						fmu.Lock()
+						if failure == "" {
+							failure = fmt.Sprintf("reading a file this goroutine had just opened and not closed failed: %v", err)
+						}
+						fmu.Unlock()
+						break
+					}
+					runtime.Gosched()
+				}
+				f.Close()
+			}
+		}()
+	}
+	addr := ln.Addr().String()
+	deadline := time.Now().Add(12 * time.Second)
+	for round := 0; time.Now().Before(deadline); round++ {
+		// the endpoint reconnects one second after its peer hung up: adding and removing it makes it connect at once
+		if err := s.e.mgr.AddPcapOverIPEndpoint(addr); err != nil {
+			close(stop)
+			wg.Wait()
+			return "AddPcapOverIPEndpoint: " + err.Error(), nil
+		}
+		time.Sleep(3 * time.Millisecond)
+		_ = s.e.mgr.DelPcapOverIPEndpoint(addr)
+		fmu.Lock()
+		failed := failure != ""
+		fmu.Unlock()
+		if failed {
+			break
+		}
+	}
+	close(stop)
+	wg.Wait()
+	cmu.Lock()
+	n := conns
+	cmu.Unlock()
+	if failure != "" {
+		return fmt.Sprintf("after %d PCAP-over-IP connections: %s", n, failure), nil
+	}
+	if n < 50 {
+		return fmt.Sprintf("harness: only %d PCAP-over-IP connections in 12s", n), nil
+	}
+	return "", nil
+}
+
 func c10FixedCase(name string) (string, any) {
 	switch name {
+	case "F-C10-pcap-over-ip-descriptor-closed-twice":
+		return c10DescriptorProbe()
 	case "F-C10-empty-view-refetch":
 		s, err := vfStart([][2]string{{"aa", ""}, {"bb", ""}}, nil, nil, false)
 		if err != nil {
@@ -493,7 +599,7 @@ func c10FixedCase(name string) (string, any) {
 }
 
 func TestVerifC10Fixed(t *testing.T) {
-	vlib.Fixed(t, "C10", []string{"F-C10-empty-view-refetch"}, c10FixedCase)
+	vlib.Fixed(t, "C10", []string{"F-C10-empty-view-refetch", "F-C10-pcap-over-ip-descriptor-closed-twice"}, c10FixedCase)
 }
 
 func c16FixedCase(name string) (string, any) {
